@@ -18,7 +18,7 @@
 EXTENDS Integers, Sequences, FiniteSets
 
 \* abstract list: live elements in insertion order, removed elements with their frozen successor
-SeqInit == [live |-> <<>>, rem |-> {}, fnext |-> <<>>]
+SeqInit == [live |-> <<>>, rem |-> {}, fnext |-> [x \in {} |-> 0]]
 
 IndexOf(s, e) == CHOOSE i \in 1..Len(s) : s[i] = e
 InSeq(e, s) == \E i \in 1..Len(s) : s[i] = e
